@@ -74,10 +74,11 @@ BuildClause(c) ==
                ELSE IF c.has_nl THEN Stable("normalisation_after_load_changes_value", c.n1, c.nl) ELSE "ok"
 
 CtorClause(c) ==
-    LET v == IF c.kind = "ctor" THEN FieldVerdict(c.cls, c.field, c.val)
+    LET v == IF c.kind \in {"ctor", "setattr"} THEN FieldVerdict(c.cls, c.field, c.val)
              ELSE IF c.kind = "oneof" THEN OneofVerdict(c.members)
              ELSE WeightsVerdict(c.bbfam, c.val)
         what == IF c.kind = "ctor" THEN c.cls \o "." \o c.field
+                ELSE IF c.kind = "setattr" THEN "on_assignment/" \o c.cls \o "." \o c.field
                 ELSE IF c.kind = "oneof" THEN c.cls \o ".oneof" ELSE "ModelConfig.pre_trained_weights/" \o c.bbfam
     IN IF v = "reject" /\ c.raised = "" THEN "invalid_value_accepted/" \o what
        ELSE IF v = "accept" /\ c.raised # "" THEN "valid_value_rejected/" \o what
